@@ -101,13 +101,14 @@ impl Adapter for CbAd {
     }
     fn gen_cfg(&mut self, rng: &mut Rng, size: Size) -> Value {
         let seq = self.variant == "seq";
+        let storm = self.variant == "storm";
         let wt = *rng.pick(&["count", "time"]);
         let n = if seq { *rng.pick(if size == Size::Quick { &[2u64, 3, 4][..] } else { &[2u64, 3, 4, 10, 100][..] }) } else { 2 + rng.below(2) as u64 };
         let min = *rng.pick(&[1, n, n + 1, (n / 2).max(1)]);
         json!({
-            "wt": wt, "N": n, "min": min, "thr": *rng.pick(&[0u64, 1, 2, 3, 4, 2, 2]), "perm": 1 + rng.below(3),
+            "wt": wt, "N": n, "min": min, "thr": *rng.pick(&[0u64, 1, 2, 3, 4, 2, 2]), "perm": if storm { 1 + rng.below(2) } else { 1 + rng.below(3) },
             "slowOn": rng.below(2), "slowThr": 2 + rng.below(2), "slowRate": *rng.pick(&[1u64, 2, 4]),
-            "D": *rng.pick(&[2u64, 4, 7]), "wait": *rng.pick(&[1u64, 2, 3, 5]), "cls": *rng.pick(&["default", "e2ok"]),
+            "D": *rng.pick(&[2u64, 4, 7]), "wait": if storm { 1 + rng.below(2) as u64 } else { *rng.pick(&[1u64, 2, 3, 5]) }, "cls": *rng.pick(&["default", "e2ok"]),
             "fb": if seq { 0 } else { rng.below(2) },
         })
     }
@@ -163,9 +164,67 @@ impl Adapter for CbAd {
         p.w_op = 1;
         p.ops = vec!["force_open", "force_open", "force_closed", "reset"];
         p.max_adv = 3;
+        if self.variant == "storm" {
+            // many callers arriving while open / half-open, trial calls that hang, cancellations, re-opening
+            p.n = if size == Size::Quick { 10 + rng.below(5) } else { 12 + rng.below(5) };
+            p.steps = if size == Size::Quick { 110 } else { 200 };
+            p.w_create = 7;
+            p.w_complete = 2;
+            p.w_drop = 3;
+            p.w_adv = 3;
+            p.w_op = 2;
+            p.ops = vec!["force_open"];
+            p.outs = vec![(GOut::Ok, 2), (GOut::Err(1), 7), (GOut::Panic, 1)];
+            p.max_adv = cfg["wait"].as_u64().unwrap();
+        }
         p
     }
     fn script(&mut self, cfg: &Value, size: Size, rng: &mut Rng) -> Option<Vec<Value>> {
+        if self.variant == "storm" {
+            // open-loop macro steps: bursts of callers at an open / half-open breaker, trial calls that
+            // hang across periods, one trial failing (re-open) or succeeding, cancellations of old and new callers
+            let wait = cfg["wait"].as_u64().unwrap();
+            let perm = cfg["perm"].as_u64().unwrap() as usize;
+            let nmax = 16usize;
+            let mut next = 1usize;
+            let mut live: Vec<usize> = vec![];
+            let mut v = vec![json!({"e":"op","name":"force_open"}), json!({"e":"advance","d":wait})];
+            let rounds = if size == Size::Quick { 14 } else { 24 };
+            for _ in 0..rounds {
+                match rng.weighted(&[5, 3, 1, 4, 3, 1]) {
+                    0 => {
+                        let k = 1 + rng.below(perm + 2);
+                        for _ in 0..k {
+                            if next <= nmax {
+                                v.push(json!({"e":"create","c":next}));
+                                v.push(json!({"e":"poll","c":next}));
+                                live.push(next);
+                                next += 1;
+                            }
+                        }
+                    }
+                    1 if !live.is_empty() => {
+                        let c = live.remove(rng.below(live.len()));
+                        v.push(json!({"e":"complete","c":c,"out":"e1"}));
+                        v.push(json!({"e":"poll","c":c}));
+                    }
+                    2 if !live.is_empty() => {
+                        let c = live.remove(rng.below(live.len()));
+                        v.push(json!({"e":"complete","c":c,"out":"ok"}));
+                        v.push(json!({"e":"poll","c":c}));
+                    }
+                    3 if !live.is_empty() => {
+                        // cancel: prefer the oldest hanging caller half of the time
+                        let i = if rng.pct(50) { 0 } else { rng.below(live.len()) };
+                        let c = live.remove(i);
+                        v.push(json!({"e":"drop","c":c}));
+                    }
+                    4 => v.push(json!({"e":"advance","d": if rng.pct(75) { wait } else { 1 }})),
+                    _ => v.push(json!({"e":"op","name":"force_open"})),
+                }
+            }
+            return Some(v);
+        }
         if self.variant != "seq" {
             return None;
         }
